@@ -75,6 +75,8 @@ func vpC07Leftover(fixedRand bool) {
 	vpAssert("C07.no-demote-callback", s.cb.demotes == 0)
 	vpAssert("C07.token-stable", s.e.Token() == tok && s.cb.promotes == 1)
 	vpAssert("C07.owner-stable", s.st.live() && vpRecID(s.st.val) == "a" && vpRecTok(s.st.val) == tok)
+	vpAssert("C02.claim-backed", vpClaimBacked(s.e, s.st, "a"))
+	vpAuditLog(s.st, "a", false, 0, false)
 }
 
 // vpH_C07_T_stale_events: a settled leader (elected through the follower path, so its watcher runs)
